@@ -43,6 +43,7 @@ TEMPLATES = (
     ("deep-list", "{ l { x y } o { y x } }"),
     ("completion-error", "{ a sc o { x sc } b }"),          # `sc` resolves fine but its scalar's serialize raises ResolverError: a field error raised while COMPLETING
     ("falsy-items", "{ lf { id __typename } a }"),
+    ("deferred-by-default-resolver", "{ a ro { x dm y } b }"),      # `dm` has no resolver: the default resolver calls the object's method, which returns a deferred value (that may fail)
 )
 
 
@@ -113,6 +114,34 @@ def unexpected_exceptions():
     return (ValueError, exc.UnknownEnumValue, exc.CoercionError, exc.GraphQLError, exc.ExecutionError, KeyError, exc.ScalarSerializationError)
 
 
+class Rec:
+    """an application object (not a Mapping): the default resolver reads attributes and CALLS methods (ctx, info, **args)"""
+    def __init__(self, world, **kw):
+        self.__dict__.update(kw)
+        self._world = world
+
+    def __getitem__(self, key):          # the custom resolvers of the world read root[key]
+        return self.__dict__[key]
+
+    def get(self, key, default=None):
+        return self.__dict__.get(key, default)
+
+    def dm(self, ctx, info, **kw):
+        """a DEFERRED value produced by the object itself and found by the default resolver (no explicit resolver on the field)"""
+        w = self._world
+        kind = w.kinds.get("dm", VALUE)
+
+        def work():
+            return w._compute("dm", kind, self, tuple(info.path))
+        if w.mode == "async":
+            async def co():
+                fut = w.loop.create_future()
+                w.pending.append((fut, work))
+                return await fut
+            return co()
+        return info.runtime.submit(work)
+
+
 class World:
     """kinds: dict field-key -> kind for 'a', 'o', 'x', 'nn', 'l', 'm1', 'm2', 'm3', 'y' (missing = PLAIN)"""
 
@@ -135,10 +164,14 @@ class World:
             return None
         if key in ("sc", "msc"):
             return "boom"
+        if key == "dm":
+            return 77
+        if key == "ro":
+            return Rec(self, x=31, y=32, id="ro1")
         return root[key]
 
     def resolver(self, key):
-        kind = self.kinds.get(key, VALUE if key in ("sc", "msc") else PLAIN)
+        kind = self.kinds.get(key, VALUE if key in ("sc", "msc", "ro") else PLAIN)
         if kind == PLAIN and not (key == "nn" and self.nn_null):
             return None
         if SHARED_RESOLVER:
@@ -191,13 +224,15 @@ class World:
         odd = ScalarType("Odd", serialize=cannot_serialize, parse=lambda v: v)
         node = InterfaceType("Node", [Field("id", ID)])
         obj = ObjectType("Obj", [Field("x", Int, resolver=self.resolver("x")), Field("y", Int, resolver=self.resolver("y")), Field("id", ID),
-                                 Field("sc", odd, resolver=self.resolver("sc"))],
+                                 Field("sc", odd, resolver=self.resolver("sc")),
+                                 Field("dm", Int)],          # no resolver: the default resolver finds the object's method
                          interfaces=[node])
         q = ObjectType("Query", [
             Field("sc", odd, resolver=self.resolver("sc")), Field("lf", ListType(obj)),
             Field("a", Int, resolver=self.resolver("a")), Field("b", Int), Field("nn", NonNullType(Int), resolver=self.resolver("nn")),
             Field("o", obj, resolver=self.resolver("o")), Field("l", ListType(obj), resolver=self.resolver("l")),
             Field("n", node, resolver=self.resolver("n")),
+            Field("ro", obj, resolver=self.resolver("ro")),      # resolves to a Rec object
         ])
         mfields = [Field("m1", obj, resolver=self.resolver("m1")), Field("m2", obj, resolver=self.resolver("m2")), Field("m3", Int, resolver=self.resolver("m3")),
                    Field("msc", odd, resolver=self.resolver("msc"))]      # resolves fine, fails while the value is COMPLETED (the scalar's serialize raises ResolverError)
